@@ -241,7 +241,7 @@ def strip_casts(t):
     while isinstance(t, tuple) and t:
         if t[0] == "cast":
             t = t[2]
-        elif t[0] == "call" and t[1] in CONV_FNS and len(t[2]) == 1:
+        elif t[0] == "call" and (t[1] in CONV_FNS or _CONV_RE.search(t[1])) and len(t[2]) == 1:
             t = t[2][0]
         else:
             break
@@ -249,6 +249,9 @@ def strip_casts(t):
 
 
 LEN_FNS = {"core::slice::<impl [T]>::len", "std::vec::Vec::<T, A>::len", "core::str::<impl str>::len"}
+
+import re as _re
+_CONV_RE = _re.compile(r"impl std::convert::From<\w+> for \w+>::from$")
 
 CONV_FNS = {
     "<usize as std::convert::From<u8>>::from",
@@ -259,6 +262,7 @@ CONV_FNS = {
     "<u64 as std::convert::From<u8>>::from",
     "<u16 as std::convert::From<u8>>::from",
     "<T as std::convert::Into<U>>::into",
+    "std::convert::Into::into",
     "<T as std::convert::From<T>>::from",
 }
 
